@@ -46,4 +46,48 @@ theorem unmark_selectGo (d : Nat) (rs : List Res) (s : MStream) (h : ∀ r ∈ r
       · simp only [hd, ↓reduceIte]; cases x <;> simp [unmark, ih 0 rs h]
       · simp only [hd, ↓reduceIte]; cases x <;> simp [unmark, ih _ rs h]
 
+theorem unmark_append (a b : MStream) : unmark (a ++ b) = unmark a ++ unmark b := by
+  induction a with
+  | nil => rfl
+  | cons p a ih =>
+    obtain ⟨m, x⟩ := p
+    cases x <;> simp [unmark, ih]
+
+def Bal (s : Stream) : Prop := balance [] s = some []
+
+theorem Bal.nil : Bal [] := rfl
+
+theorem balance_bal (st : List QName) {a : Stream} (ha : Bal a) (b : Stream) :
+    balance st (a ++ b) = balance st b := by
+  rw [balance_append]
+  have := balance_frame a [] [] st ha
+  simp at this
+  simp [this]
+
+theorem Bal.append {a b : Stream} (ha : Bal a) (hb : Bal b) : Bal (a ++ b) := by
+  unfold Bal; rw [balance_bal [] ha]; exact hb
+
+theorem balance_cons_congr (e : Event) {a b : Stream}
+    (h : ∀ st, balance st a = balance st b) (st : List QName) :
+    balance st (e :: a) = balance st (e :: b) := by
+  cases e with
+  | start t at_ => simp [balance, h]
+  | end_ t =>
+    cases st with
+    | nil => simp [balance]
+    | cons t' st => by_cases ht : t = t' <;> simp [balance, ht, h]
+  | _ => cases st <;> simp [balance, h]
+
+theorem balance_append_congr (p : Stream) {a b : Stream}
+    (h : ∀ st, balance st a = balance st b) (st : List QName) :
+    balance st (p ++ a) = balance st (p ++ b) := by
+  induction p generalizing st with
+  | nil => exact h st
+  | cons e p ih => exact balance_cons_congr e (fun st => ih st) st
+
+theorem unmark_inj_ev (c : Stream) : unmark (inj (c.map .ev)) = c := by
+  induction c with
+  | nil => rfl
+  | cons e c ih => simp only [inj, List.map_cons, unmark] at ih ⊢; rw [ih]
+
 end Genshi.Tf
